@@ -100,6 +100,15 @@ func (p *Streamer) initTarget(prm *PutInitPrm) error {
 
 	// prepare trusted-Put object target
 
+	// the slicer attaches the request's session token to the sealed object; a token of the
+	// other version left in the raw header would be stored next to it without ever being
+	// authenticated (and the object would be refused by every other node)
+	if sToken != nil {
+		prm.hdr.SetSessionTokenV2(nil)
+	} else if sTokenV2 != nil {
+		prm.hdr.SetSessionToken(nil)
+	}
+
 	sessionKey, err := p.keyStorage.GetKey(nil)
 	if err != nil {
 		return fmt.Errorf("(%T) could not receive node key for V2 token: %w", p, err)
